@@ -240,7 +240,7 @@ func runC06(c *Ctx) {
 				loads = append(loads, in)
 			}
 		}
-		if c.isFlagStore(in, false) {
+		if c.isFlagClear(in) {
 			clears = append(clears, in)
 		}
 	})
@@ -293,6 +293,10 @@ func runC06(c *Ctx) {
 				return
 			}
 			nTrue++
+			if a.FlagSetter != nil && fn == a.FlagSetter {
+				// the trivial setter: judged at its call in the connect routine
+				fn, in = a.Connect, a.ConnectSet
+			}
 			ok := fn == a.Connect && ls.Held(in, mu) == 'W'
 			why := fmt.Sprintf("in %s lockset=%s", c.FuncKey(fn), ls.At[in])
 			if ok {
